@@ -58,6 +58,9 @@ def judge(acc, case, prog, cfg, rng):
     if rec["prepare"] is None or abs(rec["prepare"][0] - opt) > 1e-12 * (1 + abs(opt)) or rec["prepare"][1] != cfg["tol_dr"]:
         findings.append({"key": "heuristic_prepared_with_wrong_value", "what": "prepare_heuristic(%r) for optimum %r tol %r" % (rec["prepare"], opt, cfg["tol_dr"]),
                          "grade": "violated", "defect": 1, "scale": 1})
+    for f in HEUR.pop(id(rec), []):
+        findings.append(dict(f, defect=1, scale=1))
+    acc.count("heuristic_objectives_validated", rec["heuristic_calls"])
     cf, cinfo = oracles.certificate_check(rec, ret, mode)
     pf, pinfo = oracles.primal_check(rec, ret, mode, held_objects=driver.held_objects(case.machine))
     for f in cf:
@@ -141,5 +144,18 @@ def on_undecidable(acc, case, prog, cfg):
     return []
 
 
+HEUR = {}
+
+
 def run_shard(spec):
+    from pv.mosek_trace import validate_heuristic
+    bd = driver.boundary()
+
+    def after_heuristic(wrapper, rec, weight):
+        try:
+            HEUR.setdefault(id(rec), []).extend(validate_heuristic(wrapper, rec, weight))
+        except Exception:
+            pass
+
+    bd.after_heuristic = after_heuristic
     return sb.run_generic(spec, judge, config_fn=config_fn, on_undecidable=on_undecidable)
